@@ -158,6 +158,23 @@ def generate(L):
     if not m:
         raise L.GenError("PersistedWorkingLog::new: INITIAL file name not found")
     lits["initial"] = m.group(1)
+    pf = L.find_fn(src, "persist_file_version", rel)
+    gf = L.find_fn(src, "get_file_version", rel)
+    m1 = re.search(r'self\.dir\.join\("([^"]+)"\)\.join\(sha\)', gf)
+    m2 = re.search(r'let blobs_dir = self\.dir\.join\("([^"]+)"\)', pf)
+    if not m1 or not m2 or m1.group(1) != m2.group(1):
+        raise L.GenError("get_file_version / persist_file_version: blobs directory literal not found")
+    lits["blobs"] = m1.group(1)
+    if "fs::read_to_string(blob_path)" not in gf:
+        raise L.GenError("get_file_version: plain read_to_string of the blob not found")
+    sv = L.find_fn(L.read_src(rel4), "save_current_file_states", rel4)
+    if not re.search(r'working_log\.dir\.join\("' + re.escape(lits["blobs"]) + r'"\)', sv):
+        raise L.GenError("save_current_file_states: blobs dir not found")
+    # is an existing blob rewritten in place (plain fs::write, no existence test, no temp file + rename)?
+    in_place = bool(re.search(r"std::fs::write\(blob_path,\s*content\)", sv)) and \
+        not re.search(r"blob_path\.exists\(\)|try_exists|rename\(|persist\(|create_new", sv)
+    if not re.search(r"std::fs::write\(blob_path|rename\(|persist\(", sv):
+        raise L.GenError("save_current_file_states: the write of the blob was not found")
     ws = L.find_fn(src6, "worktree_storage_ai_dir", rel6)
     if not re.search(r'if canonical_git_dir == canonical_common_dir\s*\{\s*return git_common_dir\.join\("ai"\);', ws):
         raise L.GenError("worktree_storage_ai_dir: main-worktree branch (common/ai) not found")
@@ -189,4 +206,6 @@ def generate(L):
         "Definition s_rewrite_log : list N := " + s(lits["rewrite_log"]) + ".",
         "Definition s_checkpoints : list N := " + s(lits["checkpoints"]) + ".",
         "Definition s_initial : list N := " + s(lits["initial"]) + ".",
+        "Definition s_blobs : list N := " + s(lits["blobs"]) + ".",
+        "Definition blob_rewritten_in_place : bool := " + L.coq_bool(in_place) + ".",
     ])
